@@ -196,6 +196,8 @@ func TestVerifC15Env(t *testing.T) {
 		if err != nil {
 			t.Fatal(err)
 		}
+		fmt.Fprintf(w, "begin\t%s\n", fs[1])
+		w.Flush()
 		out := c15decode(bs)
 		if out == "panic" || out == "nilnil" {
 			fmt.Fprintf(w, "ORACLE\tenv-decode-%s\t%s\t%s\n", out, fs[1], fs[2])
